@@ -8,6 +8,7 @@
 From Coq Require Import List Bool Arith NArith ZArith Ascii String Lia.
 From Molli Require Import Common.ParseStr Common.ParseStrFacts Model.Parse.
 Import ListNotations.
+Local Open Scope char_scope.
 Local Open Scope list_scope.
 
 (* ================================================================= generic list facts *)
@@ -485,4 +486,475 @@ Proof.
   - destruct j as [|[|[|[|[|j]]]]]; simpl in Ha'; try discriminate.
     rewrite Ex, Ey in Ha'. destruct (parse_float t) as [ft|] eqn:Et; [|discriminate]. injection Ha' as <-. simpl.
     repeat split; auto. right. exists t, z. simpl in Ht. auto.
+Qed.
+
+
+
+(* ================================================================= mol2: counts (ALL inputs) *)
+Definition m2block_ok (b : m2block) : Prop :=
+  Z.of_nat (List.length (mk_atoms b)) = mh_natoms (mk_hdr b) /\ Z.of_nat (List.length (mk_bonds b)) = nb_of (mk_hdr b).
+Definition m2out (st : m2state) : list m2block := match st with MRun _ v => v_out v | MFail _ => [] end.
+
+Lemma m2yield_ok v v' : Forall m2block_ok (v_out v) -> m2yield true v = Ok v' -> Forall m2block_ok (v_out v').
+Proof.
+  unfold m2yield. intros Hout H. destruct (v_hdr v) as [h|]; [|injection H as <-; exact Hout].
+  destruct (v_atoms v) as [ra|]; [|discriminate]. destruct (v_bonds v) as [rb|]; [|discriminate].
+  destruct (len_is ra (mh_natoms h) && len_is rb (nb_of h)) eqn:E; [|discriminate]. injection H as <-. simpl.
+  constructor; [|exact Hout]. apply andb_prop in E. destruct E as [E1 E2]. unfold len_is in *.
+  apply Z.eqb_eq in E1. apply Z.eqb_eq in E2. split; simpl; rewrite rev_length; assumption.
+Qed.
+
+Lemma m2main_ok v l : Forall m2block_ok (v_out v) -> Forall m2block_ok (m2out (m2main true v l)).
+Proof.
+  intros H. unfold m2main. destruct l as [|c r]; [exact H|]. destruct (ascii_eqb c "#"); [exact H|].
+  destruct (tripos_name (c :: r)) as [nm|].
+  - destruct (section_of nm); cbn [v_hdr v_atoms v_bonds v_out v_skip].
+    + destruct (m2yield true _) as [v'|e] eqn:E; [|constructor]. apply m2yield_ok in E; [|exact H]. exact E.
+    + destruct (v_hdr v); [|constructor]. destruct (true && nonempty_opt (v_atoms v)); [constructor|].
+      destruct (mh_natoms m <=? 0)%Z; exact H.
+    + destruct (v_hdr v); [|constructor]. destruct (mh_nbonds m); [|constructor].
+      destruct (true && nonempty_opt (v_bonds v)); [constructor|]. destruct (z <=? 0)%Z; exact H.
+    + exact H.
+    + exact H.
+    + exact H.
+  - destruct (v_skip v); [exact H|constructor].
+Qed.
+
+Lemma m2step_ok st l : Forall m2block_ok (m2out st) -> Forall m2block_ok (m2out (m2step true st l)).
+Proof.
+  destruct st as [m v|e]; [|intros; constructor]. simpl m2out. intros H. unfold m2step.
+  destruct m.
+  - now apply m2main_ok.
+  - destruct got as [|a [|b [|c [|d [|e got]]]]]; try exact H.
+    destruct (m2header d c a) as [h|]; [|constructor].
+    destruct (tripos_name (strip l)); [apply m2main_ok; exact H|]. destruct (str_eqb _ _); exact H.
+  - exact H.
+  - destruct (List.length (split (strip l)) <? 5)%nat; [constructor|]. destruct (todo <=? 1)%N; exact H.
+  - destruct (List.length (split (strip l)) <? 4)%nat; [constructor|]. destruct (todo <=? 1)%N; exact H.
+  - destruct (tripos_name (strip l)); [now apply m2main_ok|]. destruct (two_ints (strip l)) as [[i n]|]; [|constructor].
+    destruct (n <=? 0)%Z; exact H.
+  - destruct (split (strip l)) as [|a [|b [|c r]]]; try constructor.
+    unfold set_atom_attr. destruct (v_atoms v); [|constructor]. destruct (py_index _ _); [|constructor].
+    destruct (todo <=? 1)%N; exact H.
+  - destruct (tripos_name (strip l)); [now apply m2main_ok|]. destruct (two_ints (strip l)) as [[i n]|]; [|constructor].
+    destruct (n <=? 0)%Z; exact H.
+  - destruct (split (strip l)) as [|a [|b [|c r]]]; try constructor.
+    unfold chk_bond_attr. destruct (v_bonds v); [|constructor]. destruct (py_index _ _); [|constructor].
+    destruct (todo <=? 1)%N; exact H.
+Qed.
+
+Lemma m2run_ok ls : forall st, Forall m2block_ok (m2out st) -> Forall m2block_ok (m2out (m2run true st ls)).
+Proof. induction ls as [|l ls IH]; intros st H; [exact H|]. apply IH. now apply m2step_ok. Qed.
+
+Theorem read_mol2_counts ls bs : read_mol2 true ls = Ok bs -> Forall m2block_ok bs.
+Proof.
+  unfold read_mol2. intros H. pose proof (m2run_ok ls (m2init) (Forall_nil _)) as Hok.
+  destruct (m2run true m2init ls) as [m v|e]; [|discriminate]. simpl in Hok. destruct m; try discriminate.
+  simpl in H. destruct (v_hdr v); [|discriminate]. destruct (m2yield true v) as [v'|] eqn:E; [|discriminate].
+  injection H as <-. apply Forall_rev. eapply m2yield_ok; eauto.
+Qed.
+
+
+
+(* ================================================================= mol2: well-formed texts, truncation *)
+Definition ignorable (l : str) : Prop := strip l = [] \/ exists r, strip l = "#" :: r.
+Definition is_sec (l : str) (s : section) : Prop :=
+  exists nm r, strip l = "@" :: r /\ tripos_name (strip l) = Some nm /\ section_of nm = s.
+Definition plain_status (l : str) : Prop := tripos_name (strip l) = None /\ str_eqb (strip l) (s2l "****") = false.
+Definition atom_line_of (l : str) (a : m2atom) : Prop :=
+  a = mk_m2atom (split (strip l)) None /\ (5 <= List.length (split (strip l)))%nat.
+Definition bond_line_of (l : str) (b : m2bond) : Prop :=
+  b = mk_m2bond (split (strip l)) /\ (4 <= List.length (split (strip l)))%nat.
+
+Inductive m2wf : m2block -> list str -> Prop :=
+| m2wf_intro ign lm name counts mtype ctype status la als lb bls h atoms bonds :
+    Forall ignorable ign -> is_sec lm SMolecule ->
+    m2header (strip name) (strip counts) (strip ctype) = Ok h -> plain_status status ->
+    is_sec la SAtom -> mh_natoms h = Z.of_nat (List.length atoms) -> Forall2 atom_line_of als atoms ->
+    is_sec lb SBond -> mh_nbonds h = Some (Z.of_nat (List.length bonds)) -> Forall2 bond_line_of bls bonds ->
+    m2wf (mk_m2block h atoms bonds)
+         (ign ++ lm :: name :: counts :: mtype :: ctype :: status :: la :: als ++ lb :: bls).
+Inductive m2wf_text : list m2block -> list str -> Prop :=
+| m2wt_nil : m2wf_text [] []
+| m2wt_cons b bs l ls : m2wf b l -> m2wf_text bs ls -> m2wf_text (b :: bs) (l ++ ls).
+
+Notation V oh oa ob out := (mk_m2vars oh oa ob false out).
+
+Lemma m2run_app st a b : m2run true (m2run true st a) b = m2run true st (a ++ b).
+Proof. unfold m2run. symmetry. apply fold_left_app. Qed.
+Lemma m2run_cons st l ls : m2run true st (l :: ls) = m2run true (m2step true st l) ls.
+Proof. reflexivity. Qed.
+
+(* pending molecule: parsed but not yet yielded *)
+Definition pend := option (m2hdr * list m2atom * list m2bond).
+Definition pvars (out : list m2block) (p : pend) : m2vars :=
+  match p with
+  | None => V None None None out
+  | Some (h, a, b) => V (Some h) (Some (rev a)) (Some (rev b)) out
+  end.
+Definition pout (out : list m2block) (p : pend) : list m2block :=
+  match p with None => out | Some (h, a, b) => mk_m2block h a b :: out end.
+Definition pok (p : pend) : Prop :=
+  match p with None => True
+  | Some (h, a, b) => Z.of_nat (List.length a) = mh_natoms h /\ Z.of_nat (List.length b) = nb_of h end.
+Definition phdr (p : pend) : option m2hdr := match p with None => None | Some (h, _, _) => Some h end.
+
+Lemma len_is_rev {A} (l : list A) z : len_is (rev l) z = len_is l z.
+Proof. unfold len_is. now rewrite rev_length. Qed.
+
+Lemma yield_pending out p : pok p -> exists oa ob, m2yield true (pvars out p) = Ok (mk_m2vars (phdr p) oa ob false (pout out p)).
+Proof.
+  destruct p as [[[h a] b]|]; simpl; intros H.
+  - destruct H as [H1 H2]. unfold m2yield. simpl. rewrite !len_is_rev. unfold len_is.
+    rewrite H1, H2, !Z.eqb_refl. simpl. rewrite !rev_involutive. eauto.
+  - unfold m2yield. simpl. eauto.
+Qed.
+
+Lemma step_ign v l : ignorable l -> m2step true (MRun MMain v) l = MRun MMain v.
+Proof. intros [H|[r H]]; unfold m2step, m2main; rewrite H; reflexivity. Qed.
+Lemma run_ign v ign : Forall ignorable ign -> m2run true (MRun MMain v) ign = MRun MMain v.
+Proof. induction 1 as [|l ign Hl _ IH]; [reflexivity|]. rewrite m2run_cons, step_ign by exact Hl. exact IH. Qed.
+
+Lemma step_molecule out p l : pok p -> is_sec l SMolecule ->
+  m2step true (MRun MMain (pvars out p)) l = MRun (MHdr []) (mk_m2vars (phdr p) (Some []) (Some []) false (pout out p)).
+Proof.
+  intros Hp (nm & r & E1 & E2 & E3). unfold m2step, m2main. rewrite E1 in *. rewrite E2, E3.
+  change (ascii_eqb "@" "#") with false. cbv iota.
+  replace (mk_m2vars (v_hdr (pvars out p)) (v_atoms (pvars out p)) (v_bonds (pvars out p)) false (v_out (pvars out p)))
+    with (pvars out p) by (destruct p as [[[h a] b]|]; reflexivity).
+  destruct (yield_pending out p Hp) as [oa [ob E]]. rewrite E. reflexivity.
+Qed.
+
+Lemma step_hdr_push v got l : (List.length got < 4)%nat -> m2step true (MRun (MHdr got) v) l = MRun (MHdr (strip l :: got)) v.
+Proof. intros H. unfold m2step. destruct got as [|a [|b [|c [|d r]]]]; try reflexivity. simpl in H. lia. Qed.
+
+Lemma step_hdr_status oh oa ob out name counts mtype ctype status h :
+  m2header (strip name) (strip counts) (strip ctype) = Ok h -> plain_status status ->
+  m2step true (MRun (MHdr [strip ctype; strip mtype; strip counts; strip name]) (V oh oa ob out)) status
+  = MRun MMain (V (Some h) oa ob out).
+Proof. intros Hh [H1 H2]. unfold m2step. rewrite Hh, H1, H2. reflexivity. Qed.
+
+Lemma step_atom_sec h ob out l : is_sec l SAtom ->
+  m2step true (MRun MMain (V (Some h) (Some []) ob out)) l =
+  if (mh_natoms h <=? 0)%Z then MRun MMain (V (Some h) (Some []) ob out)
+  else MRun (MAtoms (Z.to_N (mh_natoms h))) (V (Some h) (Some []) ob out).
+Proof.
+  intros (nm & r & E1 & E2 & E3). unfold m2step, m2main. rewrite E1 in *. rewrite E2, E3.
+  change (ascii_eqb "@" "#") with false. cbv iota. simpl. destruct (mh_natoms h <=? 0)%Z; reflexivity.
+Qed.
+Lemma step_bond_sec h oa out l nb : is_sec l SBond -> mh_nbonds h = Some nb ->
+  m2step true (MRun MMain (V (Some h) oa (Some []) out)) l =
+  if (nb <=? 0)%Z then MRun MMain (V (Some h) oa (Some []) out)
+  else MRun (MBonds (Z.to_N nb)) (V (Some h) oa (Some []) out).
+Proof.
+  intros (nm & r & E1 & E2 & E3) Hnb. unfold m2step, m2main. rewrite E1 in *. rewrite E2, E3.
+  change (ascii_eqb "@" "#") with false. cbv iota. simpl. rewrite Hnb. simpl. destruct (nb <=? 0)%Z; reflexivity.
+Qed.
+
+Lemma step_atom oh ra ob out todo l a : atom_line_of l a ->
+  m2step true (MRun (MAtoms todo) (V oh (Some ra) ob out)) l =
+  if (todo <=? 1)%N then MRun MMain (V oh (Some (a :: ra)) ob out) else MRun (MAtoms (todo - 1)) (V oh (Some (a :: ra)) ob out).
+Proof.
+  intros [-> H]. unfold m2step. destruct (Nat.ltb_spec (List.length (split (strip l))) 5); [lia|]. reflexivity.
+Qed.
+Lemma step_bond oh oa rb out todo l b : bond_line_of l b ->
+  m2step true (MRun (MBonds todo) (V oh oa (Some rb) out)) l =
+  if (todo <=? 1)%N then MRun MMain (V oh oa (Some (b :: rb)) out) else MRun (MBonds (todo - 1)) (V oh oa (Some (b :: rb)) out).
+Proof.
+  intros [-> H]. unfold m2step. destruct (Nat.ltb_spec (List.length (split (strip l))) 4); [lia|]. reflexivity.
+Qed.
+
+Lemma atoms_short oh ob out als atoms : Forall2 atom_line_of als atoms -> forall todo ra,
+  (N.of_nat (List.length als) < todo)%N ->
+  m2run true (MRun (MAtoms todo) (V oh (Some ra) ob out)) als
+  = MRun (MAtoms (todo - N.of_nat (List.length als))) (V oh (Some (rev atoms ++ ra)) ob out).
+Proof.
+  induction 1 as [|l a als atoms Ha HF IH]; intros todo ra H.
+  - simpl. now rewrite N.sub_0_r.
+  - rewrite m2run_cons, (step_atom _ _ _ _ _ _ a Ha). destruct (N.leb_spec todo 1); [simpl in H; lia|].
+    rewrite IH by (simpl in H; lia). simpl rev. rewrite <- app_assoc. simpl. f_equal. f_equal. simpl List.length. lia.
+Qed.
+Lemma atoms_exact oh ob out als atoms : Forall2 atom_line_of als atoms -> als <> [] -> forall ra,
+  m2run true (MRun (MAtoms (N.of_nat (List.length als))) (V oh (Some ra) ob out)) als
+  = MRun MMain (V oh (Some (rev atoms ++ ra)) ob out).
+Proof.
+  intros HF Hne ra. destruct (exists_last Hne) as [als' [l ->]].
+  apply Forall2_app_inv_l in HF. destruct HF as (atoms' & atoms1 & HF' & HF1 & ->).
+  inversion HF1 as [|? a ? ? Ha HFn]; subst. inversion HFn; subst.
+  rewrite <- m2run_app. rewrite (atoms_short oh ob out als' atoms' HF') by (rewrite app_length; simpl; lia).
+  rewrite app_length. simpl List.length. rewrite m2run_cons, (step_atom _ _ _ _ _ _ a Ha).
+  destruct (N.leb_spec (N.of_nat (List.length als' + 1) - N.of_nat (List.length als')) 1); [|lia].
+  simpl. rewrite rev_app_distr. reflexivity.
+Qed.
+Lemma bonds_short oh oa out bls bonds : Forall2 bond_line_of bls bonds -> forall todo rb,
+  (N.of_nat (List.length bls) < todo)%N ->
+  m2run true (MRun (MBonds todo) (V oh oa (Some rb) out)) bls
+  = MRun (MBonds (todo - N.of_nat (List.length bls))) (V oh oa (Some (rev bonds ++ rb)) out).
+Proof.
+  induction 1 as [|l a bls bonds Ha HF IH]; intros todo rb H.
+  - simpl. now rewrite N.sub_0_r.
+  - rewrite m2run_cons, (step_bond _ _ _ _ _ _ a Ha). destruct (N.leb_spec todo 1); [simpl in H; lia|].
+    rewrite IH by (simpl in H; lia). simpl rev. rewrite <- app_assoc. simpl. f_equal. f_equal. simpl List.length. lia.
+Qed.
+Lemma bonds_exact oh oa out bls bonds : Forall2 bond_line_of bls bonds -> bls <> [] -> forall rb,
+  m2run true (MRun (MBonds (N.of_nat (List.length bls))) (V oh oa (Some rb) out)) bls
+  = MRun MMain (V oh oa (Some (rev bonds ++ rb)) out).
+Proof.
+  intros HF Hne rb. destruct (exists_last Hne) as [bls' [l ->]].
+  apply Forall2_app_inv_l in HF. destruct HF as (bonds' & bonds1 & HF' & HF1 & ->).
+  inversion HF1 as [|? a ? ? Ha HFn]; subst. inversion HFn; subst.
+  rewrite <- m2run_app. rewrite (bonds_short oh oa out bls' bonds' HF') by (rewrite app_length; simpl; lia).
+  rewrite app_length. simpl List.length. rewrite m2run_cons, (step_bond _ _ _ _ _ _ a Ha).
+  destruct (N.leb_spec (N.of_nat (List.length bls' + 1) - N.of_nat (List.length bls')) 1); [|lia].
+  simpl. rewrite rev_app_distr. reflexivity.
+Qed.
+
+
+(* ---- where a truncated well-formed block can leave the reader *)
+Lemma Forall2_firstn {A B} (R : A -> B -> Prop) k : forall l1 l2, Forall2 R l1 l2 -> Forall2 R (firstn k l1) (firstn k l2).
+Proof. induction k as [|k IH]; intros l1 l2 H; [constructor|]. destruct H; simpl; constructor; auto. Qed.
+Lemma Forall_firstn'' {A} (P : A -> Prop) l n : Forall P l -> Forall P (firstn n l).
+Proof.
+  revert n. induction l as [|x l IH]; intros n H; [destruct n; constructor|].
+  destruct n; simpl; [constructor|]. inversion H; subst. constructor; auto.
+Qed.
+
+Lemma finish_main h ra rb out :
+  m2finish true (MRun MMain (V (Some h) (Some ra) (Some rb) out)) =
+  if len_is ra (mh_natoms h) && len_is rb (nb_of h) then Ok (rev (mk_m2block h (rev ra) (rev rb) :: out)) else Err ECounts.
+Proof. unfold m2finish, m2yield. simpl. destruct (len_is ra (mh_natoms h) && len_is rb (nb_of h)); reflexivity. Qed.
+
+Definition good (h : m2hdr) (atoms : list m2atom) (bonds : list m2bond) (out' : list m2block) (st : m2state) : Prop :=
+  (exists e, m2finish true st = Err e) \/ m2finish true st = Ok (rev (mk_m2block h atoms bonds :: out')).
+
+Lemma nb_of_h h (bonds : list m2bond) : mh_nbonds h = Some (Z.of_nat (List.length bonds)) -> nb_of h = Z.of_nat (List.length bonds).
+Proof. intros Hnb. unfold nb_of. now rewrite Hnb. Qed.
+
+Lemma good_main h atoms bonds out' ra rb :
+  (len_is ra (mh_natoms h) = true -> rev ra = atoms) -> (len_is rb (nb_of h) = true -> rev rb = bonds) ->
+  good h atoms bonds out' (MRun MMain (V (Some h) (Some ra) (Some rb) out')).
+Proof.
+  intros H1 H2. unfold good. rewrite finish_main.
+  destruct (len_is ra (mh_natoms h)) eqn:E1; [|left; eexists; reflexivity].
+  destruct (len_is rb (nb_of h)) eqn:E2; [|left; eexists; reflexivity].
+  right. simpl. now rewrite H1, H2.
+Qed.
+Lemma len0_nil {A B} (m : list B) : len_is (@nil A) (Z.of_nat (List.length m)) = true -> m = [].
+Proof. unfold len_is. intros H. apply Z.eqb_eq in H. destruct m; [reflexivity|simpl in H; lia]. Qed.
+
+Lemma good_bonds h atoms bonds out' lb bls k :
+  mh_nbonds h = Some (Z.of_nat (List.length bonds)) ->
+  is_sec lb SBond -> Forall2 bond_line_of bls bonds -> (k < S (List.length bls))%nat ->
+  good h atoms bonds out' (m2run true (MRun MMain (V (Some h) (Some (rev atoms)) (Some []) out')) (firstn k (lb :: bls))).
+Proof.
+  intros Hnb Hlb HF Hk. pose proof (Forall2_length HF) as Hlen. destruct k as [|k]; simpl firstn.
+  - simpl. apply good_main.
+    + intros _. apply rev_involutive.
+    + rewrite (nb_of_h h bonds Hnb). intros H. simpl. symmetry. eapply len0_nil; eauto.
+  - rewrite m2run_cons, (step_bond_sec h _ _ lb _ Hlb Hnb).
+    destruct (Z.leb_spec (Z.of_nat (List.length bonds)) 0) as [Hle|Hgt]; [lia|].
+    rewrite (bonds_short _ _ _ (firstn k bls) (firstn k bonds)).
+    + left. eexists. reflexivity.
+    + now apply Forall2_firstn.
+    + rewrite firstn_length. lia.
+Qed.
+
+Lemma good_atoms h atoms bonds out' la als lb bls k :
+  mh_natoms h = Z.of_nat (List.length atoms) -> mh_nbonds h = Some (Z.of_nat (List.length bonds)) ->
+  is_sec la SAtom -> Forall2 atom_line_of als atoms -> is_sec lb SBond ->
+  Forall2 bond_line_of bls bonds -> (k < S (List.length als + S (List.length bls)))%nat ->
+  good h atoms bonds out' (m2run true (MRun MMain (V (Some h) (Some []) (Some []) out')) (firstn k (la :: als ++ lb :: bls))).
+Proof.
+  intros Hna Hnb Hla HFa Hlb HFb Hk. pose proof (Forall2_length HFa) as Hlen. destruct k as [|k]; simpl firstn.
+  - simpl. apply good_main.
+    + rewrite Hna. intros H. simpl. symmetry. eapply len0_nil; eauto.
+    + rewrite (nb_of_h h bonds Hnb). intros H. simpl. symmetry. eapply len0_nil; eauto.
+  - rewrite m2run_cons, (step_atom_sec h _ _ la Hla). rewrite firstn_app.
+    destruct (Z.leb_spec (mh_natoms h) 0) as [Hle|Hgt].
+    + assert (atoms = []) by (destruct atoms; [reflexivity|simpl in Hna; lia]). subst atoms. inversion HFa; subst.
+      rewrite firstn_nil. simpl List.length. rewrite Nat.sub_0_r. simpl app.
+      apply (good_bonds h [] bonds out' lb bls k Hnb Hlb HFb). simpl in Hk. lia.
+    + destruct (le_lt_dec (List.length als) k) as [Hge|Hlt].
+      * rewrite firstn_all2 by exact Hge. rewrite <- m2run_app.
+        replace (Z.to_N (mh_natoms h)) with (N.of_nat (List.length als)) by lia.
+        rewrite (atoms_exact _ _ _ als atoms HFa) by (destruct als; [simpl in *; lia|discriminate]).
+        rewrite app_nil_r. apply (good_bonds h atoms bonds out' lb bls _ Hnb Hlb HFb). lia.
+      * replace (k - List.length als)%nat with 0%nat by lia. simpl firstn. rewrite app_nil_r.
+        rewrite (atoms_short _ _ _ (firstn k als) (firstn k atoms)).
+        -- left. eexists. reflexivity.
+        -- now apply Forall2_firstn.
+        -- rewrite firstn_length. lia.
+Qed.
+
+Lemma finish_pending out p : pok p ->
+  (exists e, m2finish true (MRun MMain (pvars out p)) = Err e) \/ m2finish true (MRun MMain (pvars out p)) = Ok (rev (pout out p)).
+Proof.
+  intros Hp. destruct p as [[[h a] b]|]; cbn [pvars pout].
+  - right. rewrite finish_main. destruct Hp as [H1 H2]. rewrite !len_is_rev. unfold len_is. rewrite H1, H2, !Z.eqb_refl.
+    simpl. now rewrite !rev_involutive.
+  - left. eexists. reflexivity.
+Qed.
+
+(* a whole block *)
+Lemma run_block b l out p : m2wf b l -> pok p ->
+  m2run true (MRun MMain (pvars out p)) l = MRun MMain (pvars (pout out p) (Some (mk_hdr b, mk_atoms b, mk_bonds b))) /\
+  pok (Some (mk_hdr b, mk_atoms b, mk_bonds b)).
+Proof.
+  intros H Hp. destruct H as [ign lm name counts mtype ctype status la als lb bls h atoms bonds Hign Hlm Hh Hst Hla Hna HFa Hlb Hnb HFb].
+  cbn [mk_hdr mk_atoms mk_bonds]. split; [|split; [now rewrite Hna|unfold nb_of; now rewrite Hnb]].
+  rewrite <- m2run_app, run_ign by exact Hign. rewrite m2run_cons, step_molecule by assumption.
+  rewrite !m2run_cons. rewrite !step_hdr_push by (simpl; lia). rewrite (step_hdr_status _ _ _ _ _ _ _ _ _ h Hh Hst).
+  rewrite (step_atom_sec h _ _ la Hla). pose proof (Forall2_length HFa) as Hlena. pose proof (Forall2_length HFb) as Hlenb.
+  assert (E1 : m2run true (if (mh_natoms h <=? 0)%Z then MRun MMain (V (Some h) (Some []) (Some []) (pout out p))
+                          else MRun (MAtoms (Z.to_N (mh_natoms h))) (V (Some h) (Some []) (Some []) (pout out p))) als
+               = MRun MMain (V (Some h) (Some (rev atoms)) (Some []) (pout out p))).
+  { destruct (Z.leb_spec (mh_natoms h) 0) as [Hle|Hgt].
+    - assert (atoms = []) by (destruct atoms; [reflexivity|simpl in Hna; lia]). subst atoms. inversion HFa; subst. reflexivity.
+    - replace (Z.to_N (mh_natoms h)) with (N.of_nat (List.length als)) by lia.
+      rewrite (atoms_exact _ _ _ als atoms HFa) by (destruct als; [simpl in *; lia|discriminate]). now rewrite app_nil_r. }
+  rewrite <- m2run_app, E1. rewrite m2run_cons, (step_bond_sec h _ _ lb _ Hlb Hnb).
+  destruct (Z.leb_spec (Z.of_nat (List.length bonds)) 0) as [Hle|Hgt].
+  - assert (bonds = []) by (destruct bonds; [reflexivity|simpl in Hle; lia]). subst bonds. inversion HFb; subst. reflexivity.
+  - replace (Z.to_N (Z.of_nat (List.length bonds))) with (N.of_nat (List.length bls)) by lia.
+    rewrite (bonds_exact _ _ _ bls bonds HFb) by (destruct bls; [simpl in *; lia|discriminate]). now rewrite app_nil_r.
+Qed.
+
+(* a proper prefix of a block *)
+Lemma block_prefix b l out p k : m2wf b l -> pok p -> (k < List.length l)%nat ->
+  let st := m2run true (MRun MMain (pvars out p)) (firstn k l) in
+  (exists e, m2finish true st = Err e) \/ m2finish true st = Ok (rev (pout out p)) \/ m2finish true st = Ok (rev (b :: pout out p)).
+Proof.
+  intros H Hp Hk. destruct H as [ign lm name counts mtype ctype status la als lb bls h atoms bonds Hign Hlm Hh Hst Hla Hna HFa Hlb Hnb HFb].
+  cbv zeta. rewrite firstn_app. destruct (le_lt_dec k (List.length ign)) as [Hle|Hgt].
+  - replace (k - List.length ign)%nat with 0%nat by lia. simpl firstn. rewrite app_nil_r.
+    rewrite run_ign by (now apply Forall_firstn''). destruct (finish_pending out p Hp) as [E|E]; auto.
+  - rewrite firstn_all2 by lia. rewrite <- m2run_app, run_ign by exact Hign.
+    remember (k - List.length ign)%nat as k1 eqn:Ek1. destruct k1 as [|k1]; [lia|]. simpl firstn.
+    rewrite m2run_cons, step_molecule by assumption.
+    rewrite app_length in Hk. simpl in Hk. rewrite app_length in Hk. simpl in Hk.
+    do 5 (destruct k1 as [|k1]; [left; eexists; reflexivity|]; simpl firstn; rewrite m2run_cons;
+          try (rewrite step_hdr_push by (simpl; lia))).
+    rewrite (step_hdr_status _ _ _ _ _ _ _ _ _ h Hh Hst).
+    destruct (good_atoms h atoms bonds (pout out p) la als lb bls k1 Hna Hnb Hla HFa Hlb HFb) as [E|E]; [lia|auto|auto].
+Qed.
+
+Definition pend_of (b : m2block) : pend := Some (mk_hdr b, mk_atoms b, mk_bonds b).
+Lemma pout_pend_of out b : pout out (pend_of b) = b :: out.
+Proof. destruct b; reflexivity. Qed.
+
+Lemma finish_some out b : pok (pend_of b) -> m2finish true (MRun MMain (pvars out (pend_of b))) = Ok (rev (b :: out)).
+Proof.
+  intros Hp. destruct (finish_pending out (pend_of b) Hp) as [[e E]|E].
+  - exfalso. unfold pend_of in *. cbn [pvars] in E. rewrite finish_main in E. destruct Hp as [H1 H2].
+    rewrite !len_is_rev in E. unfold len_is in E. rewrite H1, H2, !Z.eqb_refl in E. discriminate.
+  - now rewrite E, pout_pend_of.
+Qed.
+
+Lemma run_text bs ls : m2wf_text bs ls -> forall out p, pok p ->
+  match rev bs with
+  | [] => m2run true (MRun MMain (pvars out p)) ls = MRun MMain (pvars out p)
+  | b :: rbs => m2run true (MRun MMain (pvars out p)) ls = MRun MMain (pvars (rbs ++ pout out p) (pend_of b)) /\ pok (pend_of b)
+  end.
+Proof.
+  induction 1 as [|b bs l ls Hb Ht IH]; intros out p Hp; [reflexivity|].
+  destruct (run_block b l out p Hb Hp) as [E Hpb]. fold (pend_of b) in E, Hpb.
+  specialize (IH (pout out p) (pend_of b) Hpb). rewrite <- m2run_app, E. simpl rev.
+  destruct (rev bs) as [|b' rbs] eqn:Er.
+  - cbn [app]. split; [exact IH|exact Hpb].
+  - cbn [app]. destruct IH as [IH1 IH2]. split; [|exact IH2]. rewrite IH1, pout_pend_of. now rewrite <- app_assoc.
+Qed.
+
+Theorem read_mol2_wf bs ls : m2wf_text bs ls -> bs <> [] -> read_mol2 true ls = Ok bs.
+Proof.
+  intros H Hne. unfold read_mol2, m2init. pose proof (run_text bs ls H [] None I) as R.
+  destruct (rev bs) as [|b rbs] eqn:Er.
+  - apply (f_equal (@rev m2block)) in Er. rewrite rev_involutive in Er. contradiction.
+  - destruct R as [R Hp]. change (mk_m2vars None None None false []) with (pvars [] None). rewrite R.
+    rewrite finish_some by exact Hp. simpl pout. rewrite app_nil_r. rewrite <- Er. now rewrite rev_involutive.
+Qed.
+
+Theorem read_mol2_truncated bs ls : m2wf_text bs ls -> forall k,
+  (exists e, read_mol2 true (firstn k ls) = Err e) \/ (exists j, read_mol2 true (firstn k ls) = Ok (firstn j bs)).
+Proof.
+  intros H k. unfold read_mol2, m2init. change (mk_m2vars None None None false []) with (pvars [] None).
+  assert (G : forall out p, pok p ->
+            (exists e, m2finish true (m2run true (MRun MMain (pvars out p)) (firstn k ls)) = Err e) \/
+            (exists j, m2finish true (m2run true (MRun MMain (pvars out p)) (firstn k ls)) = Ok (rev (pout out p) ++ firstn j bs))).
+  { revert k. induction H as [|b bs l ls Hb Ht IH]; intros k out p Hp.
+    - rewrite firstn_nil. destruct (finish_pending out p Hp) as [E|E]; [left; exact E|].
+      right. exists 0%nat. simpl. now rewrite app_nil_r.
+    - rewrite firstn_app. destruct (le_lt_dec (List.length l) k) as [Hge|Hlt].
+      + rewrite firstn_all2 by exact Hge. destruct (run_block b l out p Hb Hp) as [E Hpb]. fold (pend_of b) in E, Hpb.
+        rewrite <- m2run_app, E. destruct (IH (k - List.length l)%nat (pout out p) (pend_of b) Hpb) as [[e E2]|[j E2]].
+        * left. now exists e.
+        * right. exists (S j). rewrite E2, pout_pend_of. simpl. now rewrite <- app_assoc.
+      + replace (k - List.length l)%nat with 0%nat by lia. rewrite firstn_O, app_nil_r.
+        destruct (block_prefix b l out p k Hb Hp Hlt) as [E|[E|E]].
+        * left. exact E.
+        * right. exists 0%nat. simpl. now rewrite app_nil_r.
+        * right. exists 1%nat. rewrite E. simpl. reflexivity. }
+  destruct (G [] None I) as [E|[j E]]; [left; exact E|right; exists j; exact E].
+Qed.
+
+
+(* ---- molecules built from the blocks *)
+Definition mol2_ok (m : mol) : Prop :=
+  m_natoms m = Z.of_nat (List.length (m_elems m)) /\ List.length (m_coords m) = List.length (m_elems m) /\
+  m_nbonds m = Z.of_nat (List.length (m_bonds m)).
+Lemma all_ok_length {A B} (f : A -> res B) l ms : all_ok (map f l) = Ok ms -> List.length ms = List.length l.
+Proof. intros H. apply all_ok_Forall2 in H. symmetry. exact (Forall2_length H). Qed.
+Lemma mol2_build_ok atype btype b m : m2block_ok b -> mol2_build atype btype b = Ok m -> mol2_ok m.
+Proof.
+  intros [H1 H2]. unfold mol2_build, res_bind. destruct (mh_natoms (mk_hdr b) <? 0)%Z; [discriminate|].
+  destruct (mh_natoms (mk_hdr b) <? Z.of_nat (List.length (mk_atoms b)))%Z; [discriminate|].
+  destruct (all_ok (map _ (mk_atoms b))) as [ats|] eqn:Ea; [|discriminate].
+  destruct (all_ok (map _ (mk_bonds b))) as [bds|] eqn:Eb; [|discriminate].
+  destruct (_ && _); [discriminate|]. intros H. injection H as <-.
+  apply all_ok_length in Ea. apply all_ok_length in Eb. unfold mol2_ok. simpl. rewrite !map_length, Ea, Eb. auto.
+Qed.
+Theorem load_mol2_counts atype btype ls ms : load_mol2_lines true atype btype ls = Ok ms -> Forall mol2_ok ms.
+Proof.
+  unfold load_mol2_lines, res_bind. destruct (read_mol2 true ls) as [bs|e] eqn:E; [|discriminate]. intros H.
+  pose proof (read_mol2_counts ls bs E) as Hbs. apply all_ok_Forall2 in H. clear E.
+  revert Hbs. induction H as [|b m bs' ms' Hbm HF IH]; intros Hbs; [constructor|]. inversion Hbs; subst.
+  constructor; [eapply mol2_build_ok; eauto|auto].
+Qed.
+Theorem load_mol2_truncated atype btype bs ls ms : m2wf_text bs ls -> load_mol2_lines true atype btype ls = Ok ms -> forall k,
+  (exists e, load_mol2_lines true atype btype (firstn k ls) = Err e) \/
+  (exists j, load_mol2_lines true atype btype (firstn k ls) = Ok (firstn j ms)).
+Proof.
+  intros Hwf Hfull k. unfold load_mol2_lines, res_bind in *.
+  destruct bs as [|b0 bs0].
+  - inversion Hwf; subst. discriminate Hfull.
+  - rewrite (read_mol2_wf _ ls Hwf) in Hfull by discriminate.
+    destruct (read_mol2_truncated _ ls Hwf k) as [[e E]|[j E]]; rewrite E.
+    + left. now exists e.
+    + right. exists j. now apply all_ok_firstn.
+Qed.
+
+(* ---- a cut at a token boundary of the last xyz record *)
+Lemma xyz_atom_split_eq l1 l2 : split l1 = split l2 -> xyz_atom l1 = xyz_atom l2.
+Proof. unfold xyz_atom. now intros ->. Qed.
+Lemma xyz_atom_tokens l a : xyz_atom l = Some a -> List.length (split l) = 4%nat.
+Proof.
+  unfold xyz_atom. destruct (split l) as [|s [|x [|y [|z [|w r]]]]]; try discriminate. reflexivity.
+Qed.
+Lemma xyz_atom_few l : (List.length (split l) < 4)%nat -> xyz_atom l = None.
+Proof.
+  unfold xyz_atom. destruct (split l) as [|s [|x [|y [|z [|w r]]]]]; simpl; intros H; try reflexivity; lia.
+Qed.
+
+Theorem read_xyz_cut_token_boundary P bs0 pre0 cl cm als ats n a last l' j :
+  xwf_text P bs0 pre0 -> parse_int cl = Some n -> n = Z.of_nat (S (List.length ats)) ->
+  Forall2 (fun l a => xyz_atom l = Some a) als ats -> xyz_atom last = Some a ->
+  split l' = firstn j (split last) ->
+  (exists e, read_xyz (pre0 ++ cl :: cm :: als ++ [l']) = Err e) \/
+  read_xyz (pre0 ++ cl :: cm :: als ++ [l']) = read_xyz (pre0 ++ cl :: cm :: als ++ [last]).
+Proof.
+  intros Hpre Hc Hn HF Ha Hs.
+  destruct (read_xyz_last_line P bs0 pre0 cl cm als ats n a last l' Hpre Hc Hn HF Ha) as [Hfull Hcut].
+  pose proof (xyz_atom_tokens last a Ha) as H4.
+  destruct (le_lt_dec 4 j) as [Hge|Hlt].
+  - right. rewrite firstn_all2 in Hs by lia. rewrite (xyz_atom_split_eq l' last Hs), Ha in Hcut. now rewrite Hcut, Hfull.
+  - left. rewrite xyz_atom_few in Hcut; [exact Hcut|]. rewrite Hs, firstn_length. lia.
 Qed.
